@@ -77,7 +77,7 @@ add("b2_utf16_next", "yaml::encoding",
     desc="Utf16Decoder::next equals the reference decoder (Unicode D91): BMP unit, well-formed pair, lone trail, lead+non-trail (unit kept and re-examined), lead at EOF; every produced char is a scalar value (discharges both from_u32_unchecked sites)",
     bounds="two code units, all 2^32 value pairs; both byte orders; 0..4 bytes present; every windowing of the source",
     functions=B_FUN[1:3], covers=["B2 surrogate pair above plane 1", "B2 lone trail surrogate", "B2 lead followed by non-trail", "B2 lead at end of input"],
-    props=["C07", "C17", "C01"], timeout=1200, mem_gb=10, assumptions=B_SRC, thorough_props=["C04"])
+    props=["C07", "C17", "C01", "C02"], timeout=1200, mem_gb=10, assumptions=B_SRC, thorough_props=["C04"])
 add("b2_utf16_next_fault", "yaml::encoding",
     desc="B2 with a source that fails from a symbolic offset: a fault is Some(Err), never a fabricated char and never a clean end",
     bounds="as B2; fault offset any 0..=len", functions=B_FUN[1:3], covers=["B2 reader fault reached"],
@@ -89,7 +89,7 @@ add("b3_utf32_next", "yaml::encoding",
     desc="Utf32Decoder::next: Ok(c) iff 4 bytes present and the value is a scalar (<= 0x10FFFF, not D800-DFFF) and c equals it; 1-3 bytes -> Err; 0 bytes -> None",
     bounds="one code unit, all 2^32 values; both byte orders; 0..4 bytes present; every windowing", functions=B_FUN[3:4],
     covers=["B3 supplementary scalar", "B3 value above U+10FFFF", "B3 surrogate value", "B3 truncated unit"],
-    props=["C07", "C04", "C17"], timeout=300, mem_gb=8, assumptions=B_SRC)
+    props=["C07", "C04", "C17", "C02"], timeout=300, mem_gb=8, assumptions=B_SRC)
 add("b3_utf32_next_fault", "yaml::encoding", desc="B3 with a failing source: fault -> Some(Err)", bounds="as B3; fault offset any 0..=len",
     functions=B_FUN[3:4], covers=["B3 reader fault reached"], props=["C12", "C07"], timeout=300, mem_gb=8, assumptions=B_SRC)
 B4_ASM = B_SRC + ["inductive step: the pre-state is ANY Utf8Encoder state with a valid remainder (pos <= len <= 4, non-empty only after start); "
